@@ -510,6 +510,46 @@ PROPS["C16"] = dict(
     level_note="Trusted: Kani/CBMC; ciborium -> model codec (encode side), Ed25519 idealised, clock symbolic.",
 )
 
+# ------------------------------------------------------------------------------------------------
+# unit "node": style S1 inside the real `p2panda` crate (sync_metrics.rs)
+# ------------------------------------------------------------------------------------------------
+_P2 = "p2panda/src/"
+UNITS["node"] = dict(
+    name="node",
+    package="p2panda",
+    stage=[("repo",),
+           ("shared_repo", "models/sym.rs", _P2 + "sym.rs"),
+           ("shared_repo", "models/collections.rs", _P2 + "verif_models.rs"),
+           ("append", _P2 + "lib.rs", "harness/inject/p2panda_lib.rs"),
+           ("rewrite", _P2 + "streams/sync_metrics.rs", [(r"^use std::collections::\{HashMap, HashSet\};$", "use crate::verif_models::{HashMap, HashSet};", 1)]),
+           ("append", _P2 + "streams/sync_metrics.rs", "harness/inject/p2panda_sync_metrics.rs")],
+    repo_paths=["p2panda/src/", "src/"],
+    mem_gb=20,
+    functions=[(_P2 + "streams/sync_metrics.rs", "Aggregator::process", r"pub fn process<E: Extensions>"),
+               (_P2 + "streams/sync_metrics.rs", "Aggregator::handle_session_end", r"fn handle_session_end"),
+               ("p2panda-sync/src/protocols/topic_log_sync.rs", "Metrics::sent_bytes", r"pub fn sent_bytes\(&self\)")],
+    harnesses=[
+        dict(name="streams::sync_metrics::verif_proofs::one_session_counted_once", prop="C40", timeout=600,
+             encodes="Aggregator::process, handle_session_end, accessors", bounds="one session lifecycle (with/without live phase), all byte counts < 2^16"),
+        dict(name="streams::sync_metrics::verif_proofs::two_sessions_interleaved", prop="C40", timeout=900,
+             encodes="as above", bounds="two session lifecycles interleaved by a symbolic scheduler (all 252 interleavings), all byte counts < 2^16"),
+        dict(name="streams::sync_metrics::verif_proofs::failed_session_ends_and_is_not_overcounted", prop="C40", timeout=600,
+             encodes="Aggregator::process (Failed)", bounds="failure after 1..4 lifecycle events"),
+    ],
+)
+PROPS["C40"] = dict(
+    units=["node"],
+    trusted_base=["Kani 0.68 / CBMC 6.11 / cadical", "staging: harness module appended to sync_metrics.rs inside the real p2panda crate (scratch copy)",
+                  "model: std HashMap/HashSet -> inline-array contract models"],
+    assumptions=["a session's events follow the lifecycle the sync layer emits (SessionStarted, SyncStarted, SyncFinished{sync metrics}, optional LiveModeStarted, SessionFinished{final = sync + live metrics})",
+                 "byte counts < 2^16 per phase (no u32 overflow)", "OperationReceived events (boxed operations) are not generated"],
+    bounds="one and two sessions, every interleaving of two lifecycles, symbolic byte counts",
+    outside="more than two concurrent sessions; u32 overflow of the totals; events outside the documented lifecycle order",
+    level_text=("Bounded model checking of the real Aggregator::process over session lifecycle scripts with symbolic byte counts and a symbolic scheduler interleaving two sessions: the totals equal "
+                "the sum of what each session transferred (sync + live), every byte once, and running = started - ended at every point."),
+    level_note="Trusted: Kani/CBMC; HashMap/HashSet contract models; events restricted to the documented lifecycle.",
+)
+
 PROPS["C18"].update(
     level_text=("Bounded model checking of the real HybridTimestamp::increment: the solver decides the strict-increase "
                 "assertion for every 64-bit (timestamp, lamport, wall-clock) triple and for chains of two increments with "
